@@ -65,6 +65,23 @@ def run(ctx):
             H.run(nedits=0)
             H.restore_all()
             H.report_diffs("backup-restore")
+    # archives much larger than the decompressor's block (128 KiB): hundreds of files of 1..4096 bytes (the restorer buffers those) and a few
+    # larger ones, so that file data straddles block boundaries at many offsets
+    if not ctx.violations:
+        with slevel.Sandbox("c01") as sb:
+            H = runs.History(ctx, sb, rng, "C01", 3, 4, identity_changes=True)
+            top = os.path.join(H.w.src, H.w.items[0])
+            os.makedirs(os.path.join(top, "small"))
+            for i in range(500 if thorough else 260):
+                n = rng.choice([1, 2, 511, 1536, 3000, 4095, 4096, 4097, rng.randrange(1, 4097)])
+                H.w.write_file(os.path.join(top, "small", "f%04d" % i), rng.randbytes(n))
+            H.w.write_file(os.path.join(top, "large.bin"), rng.randbytes(300000))
+            ctx.count("forced.many-small-files")
+            H.run(nedits=0)
+            H.w.edit()
+            H.run(nedits=0)
+            H.restore_all()
+            H.report_diffs("backup-restore")
     ctx.traces = ctx.evaluations
     ctx.assumptions += ["every content change also changes (device, inode, mtime): the driver gives each rewritten file a fresh mtime",
                         "tar/zstd fidelity and chown/chmod/utimensat effects are observed on the restored tree, not proved",
